@@ -3,16 +3,20 @@ use serde_json::Value;
 
 pub mod c01;
 pub mod c05;
+pub mod c07;
 pub mod c09;
 pub mod c11;
+pub mod c15;
 pub mod common;
 
 pub fn run(id: &str, tier: Tier) -> i32 {
     match id {
         "C01" => c01::run(tier),
         "C05" => c05::run(tier),
+        "C07" => c07::run(tier),
         "C09" => c09::run(tier),
         "C11" => c11::run(tier),
+        "C15" => c15::run(tier),
         _ => machinery(&format!("no check for property {id}")),
     }
 }
@@ -26,8 +30,10 @@ pub fn replay(id: &str, path: &str) -> i32 {
         match id {
             "C01" => c01::replay(case),
             "C05" => c05::replay(case),
+            "C07" => c07::replay(case),
             "C09" => c09::replay(case),
             "C11" => c11::replay(case),
+            "C15" => c15::replay(case),
             _ => machinery(&format!("no replay for property {id}")),
         }
     };
